@@ -403,6 +403,7 @@ func realMain() int {
 		var finals []*State
 		if u.con != nil {
 			x.unit = u.con.Fn.Name()
+			x.kindFilter = u.con.Kinds
 			ur.Name = x.unit
 			ur.Kind = "contract"
 			if u.con.Lemma {
